@@ -342,7 +342,11 @@ impl GlobalCollector {
         }
 
         for DropCollect { collect_id } in self.drop_collects.drain(..) {
-            self.active_collectors.remove(&collect_id);
+            // Cancelling a trace is only supported when the collector is configured as
+            // cancelable, otherwise `Span::cancel()` must not affect what is reported.
+            if self.config.cancelable {
+                self.active_collectors.remove(&collect_id);
+            }
         }
 
         for SubmitSpans {
